@@ -104,6 +104,9 @@ def root_name(e):
 def analyse(tree):
     mods = module_level(tree)
     mutable_globals = {n for n, k in mods.items() if k in ('dict', 'set', 'list')}
+    # functions and classes defined at module level are objects too: state kept in their attributes (f.cache = [], Cls.count += 1)
+    # survives the call exactly like a module-level table
+    defs = {n.name for n in tree.body if isinstance(n, (ast.FunctionDef, ast.ClassDef))}
     set_globals = {n for n, k in mods.items() if k == 'set'}
     findings = []
     stats = {'functions': 0, 'stores_checked': 0, 'calls_checked': 0, 'iterations_checked': 0}
@@ -137,6 +140,8 @@ def analyse(tree):
                         stats['stores_checked'] += 1
                         if isinstance(tt, (ast.Subscript, ast.Attribute)) and root_name(tt) in tainted:
                             findings.append((q, n.lineno, 'F1', 'store into module-level object %s' % root_name(tt)))
+                        elif isinstance(tt, (ast.Subscript, ast.Attribute)) and root_name(tt) in defs and root_name(tt) not in locs:
+                            findings.append((q, n.lineno, 'F1', 'store into an attribute of the module-level function / class %s' % root_name(tt)))
                         if isinstance(n, ast.AugAssign) and isinstance(tt, ast.Name) and tt.id in tainted and tt.id in glob_here:
                             findings.append((q, n.lineno, 'F1', 'augmented assignment to module-level %s' % tt.id))
             if isinstance(n, ast.Call):
@@ -144,6 +149,9 @@ def analyse(tree):
                 f = n.func
                 if isinstance(f, ast.Attribute) and f.attr in MUTATORS and root_name(f.value) in tainted:
                     findings.append((q, n.lineno, 'F1', 'mutating call %s.%s()' % (root_name(f.value), f.attr)))
+                elif isinstance(f, ast.Attribute) and f.attr in MUTATORS and isinstance(f.value, (ast.Attribute, ast.Subscript)) \
+                        and root_name(f.value) in defs and root_name(f.value) not in locs:
+                    findings.append((q, n.lineno, 'F1', 'mutating call on state kept in an attribute of the module-level function / class %s' % root_name(f.value)))
                 # escapes: a module-level mutable passed to a callee
                 callee = f.id if isinstance(f, ast.Name) else (f.attr if isinstance(f, ast.Attribute) else None)
                 for i, a in enumerate(n.args):
